@@ -84,7 +84,7 @@ func c07Pattern(r *VRand, stats *VStats) (key, val, op string) {
 	case 3, 4:
 		return "full", c07Domain(r), ""
 	case 5, 6:
-		kws := []string{"goo", "ample", "^www", "com$", ".", "x", "-", "oo", "^a", ".cn$", "e.c"}
+		kws := []string{"goo", "ample", "^www", "com$", ".", "x", "-", "oo", "www", ".cn", "e.c", "Goo", "9g", "vk", "test", "a.", "Mail"}
 		k := kws[r.Intn(len(kws))]
 		return "keyword", k, k
 	case 7:
